@@ -26,7 +26,7 @@ EXPLANATION = (
 )
 
 SUFFIX = {"Array", "FunctionType"}
-NOT_PRODUCIBLE = {("MoveReference", "Array"), ("MoveReference", "FunctionType")}
+NOT_PRODUCIBLE: set = set()  # every (wrapper, child) nesting of the field Unions can be produced by the parser since '(&&name)' groups are accepted
 BAD_LIST = ["(, ", ", )", "(,", ",)", ", ,", "<, ", ", >", ",,"]
 
 
